@@ -33,6 +33,9 @@ type Case struct {
 	Nth     int    `json:"nth"`  // which ClientHello (0 = first, 1 = second); ignored for other messages
 	Mut     string `json:"mut"`
 	Arg     int    `json:"arg"`
+	// Split: the man in the middle forwards every record of a datagram as a datagram of its own
+	// (both directions), so that the messages of one flight arrive in separate parse passes.
+	Split bool `json:"split,omitempty"`
 }
 
 func epsFor(c *Case) (cl, sv scen.EP) {
@@ -217,6 +220,27 @@ type mitm struct {
 
 // mangle rewrites every transmission of the targeted message in a datagram.
 func (m *mitm) mangle(ev *vnet.Event) [][]byte {
+	out := m.rewrite(ev)
+	if !m.c.Split {
+		return out
+	}
+	src := ev.Data
+	if out != nil {
+		src = out[0]
+	}
+	recs, ok := scen.SplitDatagram(src, 0)
+	if !ok || len(recs) < 2 {
+		return out
+	}
+	var parts [][]byte
+	for _, rc := range recs {
+		parts = append(parts, append([]byte(nil), rc.Raw...))
+	}
+
+	return parts
+}
+
+func (m *mitm) rewrite(ev *vnet.Event) [][]byte {
 	if ev.From != m.c.From {
 		return nil
 	}
@@ -404,7 +428,7 @@ func run(c Case, r *pbt.R) {
 		r.Class("retransmission-ping-pong(>20000 datagrams at one instant)")
 	}
 	r.NonTrivial()
-	r.Key(fmt.Sprintf("%d|%s|%d|%v|%v|%v|%s|%d|%d|%s", c.Ver, c.KX, c.EMS, c.Resumed, c.CAuth, c.SkipHV, c.From, c.Msg, c.Nth, c.Mut))
+	r.Key(fmt.Sprintf("%d|%s|%d|%v|%v|%v|%s|%d|%d|%s|%v", c.Ver, c.KX, c.EMS, c.Resumed, c.CAuth, c.SkipHV, c.From, c.Msg, c.Nth, c.Mut, c.Split))
 	r.Class(ver + "/" + msgName + "/" + c.Mut)
 	r.Class(ems)
 	r.Class(mode)
@@ -443,6 +467,7 @@ func gen(t *rapid.T) Case {
 		c.Mut = "byte"
 	}
 	c.Arg = rapid.IntRange(0, 4000).Draw(t, "arg")
+	c.Split = rapid.IntRange(0, 3).Draw(t, "split") == 0
 
 	return c
 }
@@ -461,12 +486,18 @@ func enumGrid(_ string, yield func(Case) bool) {
 							if !yield(Case{Ver: ver, KX: "cert", EMS: ems, SkipHV: skip, From: "C", Msg: 1, Nth: nth, Mut: mu, Arg: arg}) {
 								return
 							}
+							if arg == 0 && !yield(Case{Ver: ver, KX: "cert", EMS: ems, SkipHV: skip, From: "C", Msg: 1, Nth: nth, Mut: mu, Arg: arg, Split: true}) {
+								return
+							}
 						}
 					}
 				}
 				for _, mu := range shMuts {
 					for arg := 0; arg < 3; arg++ {
 						if !yield(Case{Ver: ver, KX: "cert", EMS: ems, SkipHV: skip, From: "S", Msg: 2, Nth: 1, Mut: mu, Arg: arg}) {
+							return
+						}
+						if arg == 0 && !yield(Case{Ver: ver, KX: "cert", EMS: ems, SkipHV: skip, From: "S", Msg: 2, Nth: 1, Mut: mu, Arg: arg, Split: true}) {
 							return
 						}
 					}
